@@ -42,6 +42,8 @@ pub struct EpCfg {
     /// delay between the last write and close()
     pub close_delay: Micros,
     pub use_recv_closure: bool,
+    /// TCP keep-alive interval, if enabled
+    pub keep_alive_ms: Option<u64>,
 }
 
 #[derive(Clone, Debug)]
@@ -288,6 +290,7 @@ pub fn random_cfg(rng: &mut Rng, thorough: bool) -> SimCfg {
             read_pauses: Vec::new(),
             close_delay: *rng.pick(&[0i64, 0, 1_000, 200_000, 3_000_000]),
             use_recv_closure: rng.bool(),
+            keep_alive_ms: *rng.pick(&[None, None, None, None, Some(500u64), Some(5_000), Some(75_000)]),
         }
     };
     let mut ep = [mk(rng), mk(rng)];
@@ -405,6 +408,7 @@ impl TcpSim {
             if e.timestamps {
                 s.set_tsval_generator(Some(tsgen));
             }
+            s.set_keep_alive(e.keep_alive_ms.map(Duration::from_millis));
             handles.push(hosts[i].sockets.add(s));
         }
         let handles = [handles[0], handles[1]];
@@ -531,6 +535,7 @@ impl TcpSim {
             s.set_nagle_enabled(e.nagle);
             s.set_ack_delay(e.ack_delay_ms.map(Duration::from_millis));
             s.set_tsval_generator(if e.timestamps { Some(tsgen) } else { None });
+            s.set_keep_alive(e.keep_alive_ms.map(Duration::from_millis));
         }
         let lport = 49152 + incarnation;
         if self.sock(1).listen(80).is_err() {
@@ -1119,6 +1124,9 @@ impl TcpSim {
     }
 
     pub fn run(&mut self, rng: &mut Rng) {
+        for i in 0..2 {
+            self.smon[i].keep_alive = self.cfg.ep[i].keep_alive_ms.is_some();
+        }
         let deadline = self.cfg.hostile_until + 3600 * 1_000_000;
         loop {
             self.stats.events += 1;
